@@ -383,6 +383,10 @@ def gen(rng, tier):
     else:
         traces += [{"kind": "trace", "model": rng.choice(["ising", "heis"]), "solver": rng.choice(["MCWF", "TJM"]),
                     "k": rng.choice([1, 2]), "L": rng.choice([2, 3]), "sub": rng.randrange(1 << 30)} for _ in range(4 * n)]
+    # a classical Ising chain (g = 0): a branch prepared in a Z eigenstate survives the first probe and dies at the second one, so the
+    # number of re-preparations before the `break` is 2, not 1 (found thin by tools/model_mutation.py: `seqWalk` count)
+    traces.insert(1, {"kind": "trace", "model": "ising", "solver": "MCWF", "k": 2, "L": 2, "couplings": {"J": 0.7, "g": 0.0},
+                      "sub": 424242})
     for a, b in zip(heldout, traces + [None] * len(heldout)):
         yield a
         if b:
@@ -641,6 +645,8 @@ def setup_run(inp):
     r = random.Random(inp["sub"])
     model, solver, k, n = inp["model"], inp["solver"], int(inp["k"]), int(inp["L"])
     c = couplings(r, model)
+    if "couplings" in inp:   # explicit couplings (e.g. g = 0: Z-basis preparations are conserved, branches die at the SECOND probe)
+        c = dict(inp["couplings"])
     if solver == "TJM" and n >= 4:
         dt = 0.01
         durations = [r.choice([0.02, 0.03, 0.05]) for _ in range(k)]
@@ -788,6 +794,7 @@ def child_trace(inp):
     r.shuffle(order)
     dead = [s for s in order if by_seq[s][1][3] < 1e-15]
     live = [s for s in order if by_seq[s][1][3] >= 1e-15]
+    dead.sort(key=lambda q: -len(by_seq[q][0]))   # branches that die late first: the count of re-preparations before the break matters there
     chosen = live[:5] + dead[:3]
     for s in chosen:
         cl, res = by_seq[s]
